@@ -1049,6 +1049,12 @@ class Interp(object):
             return Builtin('np.abs', ab)
         if name == 'isscalar':
             return Builtin('np.isscalar', lambda v: is_scalar(v))
+        if name == 'finfo':
+            # machine constants: one positive symbol (an absolute tolerance)
+            return Builtin('np.finfo', lambda *a, **k: Rec(
+                'finfo', eps=Rat.var('eps_machine'),
+                resolution=Rat.var('eps_machine'),
+                tiny=Rat.var('eps_machine')))
         if name == 'sqrt':
             def sq(v):
                 r = to_rat(v)
